@@ -96,7 +96,7 @@ def tagged(out, tag):
     return res
 
 
-def observe(trace_files, workdir, njvm=16):
+def observe(trace_files, workdir, njvm=12):
     """Observer over each trace file. Returns ({run: set(props)}, lines, stats)."""
     viol = {}
     total_lines = 0
